@@ -26,7 +26,7 @@ import os
 from hypothesis import strategies as st
 
 from vf import runner, seeds
-from vf.engine import Case, Failure, h
+from vf.engine import Case, Failure, h, deviation_sets
 from vf.oracle import select as sel
 from vf.project import Project
 
@@ -235,12 +235,11 @@ def explain(obs, universe, case, entry):
     exp = sel.select(universe, targets, rec, pats)
     if obs == exp:
         return []
-    for r in range(1, len(sel.DEVIATIONS) + 1):
-        for devs in itertools.combinations(sel.DEVIATIONS, r):
-            if sel.select(universe, targets, rec, pats, devs) == obs:
-                d = {"entry": entry, "targets": targets, "recursive": rec, "patterns": pats, "carrier": case["carrier"],
-                     "linted_but_should_not": sorted((obs - exp).elements()), "not_linted_but_should": sorted((exp - obs).elements())}
-                return [Failure("dev:" + x, d) for x in devs]
+    for devs in deviation_sets("C14", list(sel.DEVIATIONS)):
+        if sel.select(universe, targets, rec, pats, devs) == obs:
+            d = {"entry": entry, "targets": targets, "recursive": rec, "patterns": pats, "carrier": case["carrier"],
+                 "linted_but_should_not": sorted((obs - exp).elements()), "not_linted_but_should": sorted((exp - obs).elements())}
+            return [Failure("dev:" + x, d) for x in devs]
     extra = sorted((obs - exp).elements())
     missing = sorted((exp - obs).elements())
     detail = {"entry": entry, "targets": targets, "recursive": rec, "patterns": pats, "carrier": case["carrier"],
